@@ -1392,6 +1392,98 @@ func ruleLEX6(c *Ctx) {
 	c.check(okNG, rule, "dfa.subPartition/non-greedy-difference", p.Pos(sp.Pos()), "a state whose NonGreedy mark differs from the representative's is split off: a greedy accepting state is never merged into a non-greedy one",
 		"greedy and non-greedy accepting states of one rule can be merged; the merged state is non-greedy (OR of its members), so the greedy alternative stops at its first accepting position (e.g. ITEM = 'x' 'a'*? | 'y' 'a'* lexes \"yaa\" as ITEM(y), ERROR)")
 	c.check(okTrans, rule, "dfa.subPartition/transition-difference", p.Pos(sp.Pos()), "a state whose transition on some input leads to another group than the representative's is split off", "states with transitions into different groups are not split")
+	// the comparison may live in a helper `same(first, s)`: then *every* way of answering "same"
+	// must be the equality of the two accepting-NFA-state sets; an extra shortcut (equal "keys",
+	// equal action lists) merges states of different rules, and everything that distinguishes the
+	// rules but is left out of the shortcut (a @push_mode target, the rule's position) is lost
+	if !okAcc {
+		ast.Inspect(sp.Body, func(n ast.Node) bool {
+			ifs, ok := n.(*ast.IfStmt)
+			if !ok || !addsTo(ifs.Body, moveSet) {
+				return true
+			}
+			u, ok := ast.Unparen(ifs.Cond).(*ast.UnaryExpr)
+			if !ok || u.Op != token.NOT {
+				return true
+			}
+			call, ok := ast.Unparen(u.X).(*ast.CallExpr)
+			if !ok || len(call.Args) != 2 {
+				return true
+			}
+			hf := calleeFunc(info, call)
+			if hf == nil || hf.Pkg() != pk.Types {
+				return true
+			}
+			hd := p.funcDecls[hf.Origin()]
+			if hd == nil || hd.Body == nil {
+				return true
+			}
+			hpar := parents(hd)
+			hdefs := localDefs(info, hd)
+			allEq, nTrue := true, 0
+			isSetEqual := func(e ast.Expr) bool {
+				e = ast.Unparen(resolveVia(info, hdefs, e))
+				c2, ok := e.(*ast.CallExpr)
+				if !ok || len(c2.Args) != 1 {
+					return false
+				}
+				sel, ok := c2.Fun.(*ast.SelectorExpr)
+				if !ok || sel.Sel.Name != "Equal" {
+					return false
+				}
+				for _, side := range []ast.Expr{sel.X, c2.Args[0]} {
+					sc, ok := ast.Unparen(resolveVia(info, hdefs, side)).(*ast.CallExpr)
+					if !ok {
+						return false
+					}
+					if f := calleeFunc(info, sc); f == nil || f.Name() != "acceptingNFAStates" {
+						_, body := calleeBody(sc)
+						reads := false
+						if body != nil {
+							ast.Inspect(body, func(m ast.Node) bool {
+								if isFieldNode(info, m, "lexergen/nfa", "State", "Accept") {
+									reads = true
+								}
+								return true
+							})
+						}
+						if !reads {
+							return false
+						}
+					}
+				}
+				return true
+			}
+			inspectNoLit(hd.Body, func(m ast.Node) bool {
+				rs, ok := m.(*ast.ReturnStmt)
+				if !ok || len(rs.Results) != 1 {
+					return true
+				}
+				if tv, has := info.Types[rs.Results[0]]; has && tv.Value != nil && tv.Value.String() == "false" {
+					return true
+				}
+				nTrue++
+				if isSetEqual(rs.Results[0]) {
+					return true
+				}
+				// `return true` under the fact that the sets are equal
+				under := false
+				for _, fct := range pathConds(info, hpar, rs) {
+					if !fct.neg && isSetEqual(fct.e) {
+						under = true
+					}
+				}
+				if !under {
+					allEq = false
+				}
+				return true
+			})
+			if nTrue > 0 && allEq {
+				okAcc = true
+			}
+			return true
+		})
+	}
 	c.check(okAcc, rule, "dfa.subPartition/accepting-rule-difference", p.Pos(sp.Pos()), "accepting states whose accepting NFA states differ (different rules) are split off", "accepting states of different rules can be merged: the wrong rule's actions would run")
 	// inputs cover both states: the set iterated around the comparison is filled from the
 	// transitions of every state of the group.
